@@ -227,10 +227,10 @@ def exec_run(binary, shim, roots, run, dump_dir=None):
     if target is not None and not os.path.exists(target):
         target = "/dev/null"
     if target is None:
-        p = subprocess.run(cmd, env=env, cwd=cwd, stdout=subprocess.PIPE, stderr=subprocess.PIPE)
+        p = _run_limited(cmd, env, cwd, subprocess.PIPE)
     else:
         with open(target, "w") as sink:
-            p = subprocess.run(cmd, env=env, cwd=cwd, stdout=subprocess.PIPE, stderr=sink)
+            p = _run_limited(cmd, env, cwd, sink)
         p.stderr = b""
     steps = []
     for l in p.stdout.decode("utf-8", errors="replace").split("\n"):
@@ -248,6 +248,13 @@ def exec_run(binary, shim, roots, run, dump_dir=None):
         os.unlink(log)
     os.unlink(scen)
     return steps, counters, p.returncode, p.stderr.decode(errors="replace")
+
+
+def _run_limited(cmd, env, cwd, stderr):
+    try:
+        return subprocess.run(cmd, env=env, cwd=cwd, stdout=subprocess.PIPE, stderr=stderr, timeout=300)
+    except subprocess.TimeoutExpired:
+        raise C.HarnessError("the generator did not come back within 300 s (normal: tens of milliseconds). Termination is not judged by this check.")
 
 
 class GenRefs:
